@@ -26,7 +26,7 @@ from __future__ import annotations
 
 import ast
 
-from ..core import AnalysisError, RuleContext, need, norm, short
+from ..core import region, AnalysisError, RuleContext, need, norm, short
 from ..model import walk_scope
 from ..typestate import NoReturn
 from .c04 import memo_role
@@ -102,21 +102,27 @@ def check_kind_exhaustiveness(ctx):
     if not built["single"] or not built["multi"]:
         raise AnalysisError(f"C01.1: could not collect the dim kinds built by the parser (got {built})")
 
-    def handled(f, var):
+    all_kinds = built["single"] | built["multi"]
+
+    def handled(f0, stop=()):
+        """dim kinds the checker dispatches on (`x is K`, `type(x) is K`, `isinstance(x, K)`) in f0
+        or in the helpers it was split into"""
         out = set()
-        for n in ast.walk(f.node):
-            if isinstance(n, ast.Compare) and len(n.ops) == 1 and isinstance(n.ops[0], ast.Is):
-                l, r_ = n.left, n.comparators[0]
-                if isinstance(l, ast.Name) and l.id == var and isinstance(r_, ast.Name):
-                    out.add(r_.id)
-                if isinstance(l, ast.Call) and norm(l.func) == "type" and norm(l.args[0]) == var and isinstance(r_, ast.Name):
-                    out.add(r_.id)
-            if isinstance(n, ast.Call) and norm(n.func) == "isinstance" and norm(n.args[0]) == var and isinstance(n.args[1], ast.Name):
-                out.add(n.args[1].id)
+        for f in region(m, f0, stop=stop):
+            for n in ast.walk(f.node):
+                if isinstance(n, ast.Compare) and len(n.ops) == 1 and isinstance(n.ops[0], (ast.Is, ast.IsNot, ast.Eq, ast.NotEq)):
+                    l, r_ = n.left, n.comparators[0]
+                    if isinstance(r_, ast.Name) and r_.id in all_kinds and (isinstance(l, (ast.Name, ast.Attribute, ast.Subscript)) or (
+                            isinstance(l, ast.Call) and norm(l.func) == "type")):
+                        out.add(r_.id)
+                if isinstance(n, ast.Call) and norm(n.func) == "isinstance" and len(n.args) == 2:
+                    for x in (n.args[1].elts if isinstance(n.args[1], ast.Tuple) else [n.args[1]]):
+                        if isinstance(x, ast.Name) and x.id in all_kinds:
+                            out.add(x.id)
         return out
 
-    h_single = handled(cd, "cls_dim")
-    h_multi = handled(cs, "variadic_dim")
+    h_single = handled(cd)
+    h_multi = handled(cs, stop=(cd.qualname,))
     for label, b, h, f in (("single-axis", built["single"], h_single, cd), ("multi-axis", built["multi"], h_multi, cs)):
         if b - h:
             ctx.bad("C01.1", f, f.node, f"the parser can produce the {label} dim kind(s) {sorted(b - h)} but the checker has no branch for them: such an axis "
@@ -284,7 +290,10 @@ def check_axis_table(ctx):
                 got = "accept"
             elif o.end.kind == "return":
                 v = o.end.ast.value
-                if isinstance(v, ast.Constant) and v.value == "":
+                if isinstance(v, ast.Name) and o.env.get(v.id) in ("empty", "nonempty"):
+                    # the verdict is carried in a local (`check = ...; if check != "": return check`)
+                    got = "accept-all" if o.env[v.id] == "empty" else "reject"
+                elif isinstance(v, ast.Constant) and v.value == "":
                     got = "accept-all"
                 elif isinstance(v, ast.JoinedStr) or (isinstance(v, ast.Constant) and isinstance(v.value, str)):
                     got = "reject"
@@ -459,7 +468,16 @@ def check_bind_if_absent(ctx):
         flag = norm(v.elts[0]) if isinstance(v, ast.Tuple) and len(v.elts) == 2 else None
         in_handler = any(h.id in dom[sn.id] for h in hnodes)
         on_refine_side = tnode is not None and sn.id not in seen
-        if flag != "broadcastable":
+        # the current use's `#` flag: `<dim>.broadcastable`, or a local holding it (under any name)
+        flag_ok = False
+        if isinstance(v, ast.Tuple) and len(v.elts) == 2:
+            fe = v.elts[0]
+            if isinstance(fe, ast.Attribute) and fe.attr == "broadcastable":
+                flag_ok = True
+            elif isinstance(fe, ast.Name):
+                fdefs = [a_.value for a_ in ast.walk(f.node) if isinstance(a_, ast.Assign) and any(isinstance(t_, ast.Name) and t_.id == fe.id for t_ in a_.targets)]
+                flag_ok = bool(fdefs) and all(isinstance(d_, ast.Attribute) and d_.attr == "broadcastable" for d_ in fdefs) and fe.id != (flagvar or "")
+        if not flag_ok:
             ctx.bad("C01.5", f, st, f"the stored '*name' entry records `{flag}` as its broadcastable flag instead of the current use's `#` flag: after a plain `*name` "
                     "use the binding must be pinned (no longer broadcast against)")
         if in_handler:
